@@ -454,6 +454,36 @@ example :
     (run (fun _ => true) {} exReuse).pubd "A" = some 0 ∧ signKey (fun _ => true) (run (fun _ => true) {} exReuse) "A" = .ok 1 := by
   decide +kernel
 
+/-! ### key material does not flow into SQL rows, file names, audit records or outcomes (noninterference) -/
+
+/-- **key_material_does_not_flow.** Take two stores that differ ONLY in the key material (same reference rows, same
+    entry names in the backend — `SameButKeys`) and run the same history on both. Then, whatever the keys are:
+    the reference rows (the SQL table), the names of the backend entries (the file names), `List`, `Exists`, the audit
+    records of every further request, and the success / error class of signing and resolving are identical.
+    None of these channels carries information about private (or public) key material. -/
+theorem key_material_does_not_flow (valid : String → Bool) (s t : Store) (h : SameButKeys s t) (ops : List Op) :
+    (run valid s ops).refs = (run valid t ops).refs ∧
+    (run valid s ops).backend.map (·.1) = (run valid t ops).backend.map (·.1) ∧
+    list (run valid s ops) = list (run valid t ops) ∧
+    (∀ kid, keyExists (run valid s ops) kid = keyExists (run valid t ops) kid) ∧
+    (∀ r, auditOf valid (run valid s ops) r = auditOf valid (run valid t ops) r) ∧
+    (∀ kid, resErr (signKey valid (run valid s ops) kid) = resErr (signKey valid (run valid t ops) kid)) ∧
+    (∀ kid, resErr (resolve valid (run valid s ops) kid) = resErr (resolve valid (run valid t ops) kid)) := by
+  have hR := same_run valid h ops
+  refine ⟨hR.1, hR.2, by simp [list, hR.1], fun kid => by simp [keyExists, same_ref hR kid],
+    fun r => same_audit valid hR r, fun kid => same_getPrivateKey valid hR kid, fun kid => same_resolve valid hR kid⟩
+
+/-- non-vacuity: the same history on an engine whose key generator hands out other keys — the signing key differs,
+    the rows / names / audit records do not -/
+example :
+    SameButKeys {} { nextKey := 100 } ∧
+    signKey exValid (run exValid {} exOps) "did:a#1" = .ok 0 ∧
+    signKey exValid (run exValid { nextKey := 100 } exOps) "did:a#1" = .ok 100 ∧
+    auditOf exValid (run exValid {} exOps) (.sign "jws" "did:a#1" "" "") = [("SignJWS", "Signing a JWS with key: did:a#1")] ∧
+    auditOf exValid (run exValid {} exOps) (.sign "dpop" "did:a#1" "" "") = [] := by
+  refine ⟨⟨rfl, rfl⟩, ?_⟩
+  decide +kernel
+
 /-- the lookups are by (kid → reference → backend) in every entry point that needs the private key, and nowhere else -/
 theorem fact_key_lookups :
     C03.keyLookups = [
